@@ -6,19 +6,18 @@ C05-01/02/03 applied) and quantify over EVERY interleaving: `exec (init c) sts =
 `sts` is any list of atomic steps (loop-thread calls, worker critical sections, wake-ups —
 notified or spurious) each enabled when taken; any min/max accepted by initialize(), any number
 of tasks, priorities, callbacks.  The `_counterexample` theorems exhibit concrete interleavings
-of the code AS FOUND (`Cfg.asFound`) that violate the same statements.
+of the code AS FOUND (`Cfg.asFound`), or of the code after the round-1 patches only (`Cfg.round1`),
+that violate the same statements.
 
 Not expressible in this model (see LEVEL_NOTE): data-race freedom in the C++ memory model; real
 time.  "cleanup always terminates" is proved as deadlock freedom + a strictly decreasing rank
 per worker step (termination under fair scheduling of workers with terminating bodies).
 
--- OPEN  C05_final_accounting: in a state where cleanup() has returned, every accepted task is in
---       exactly one of ran / cancelled / dropped (needs a coverage invariant "every id < nextTask
---       is waiting, held, ran, cancelled or dropped"; the exclusivity half is `C05_exactly_once`).
--- OPEN  no-lost-wake-up for SUBMITTED tasks ("a waiting task is eventually picked"): notify_one is
---       modelled as `wake`, its guarantee is not stated; the harness' `drain` watchdog tests it.
+-- Liveness ("every accepted task is eventually executed", "cleanup eventually returns") is stated as
+-- invariants that exclude every stuck state (`C05_no_lost_wakeup`, `C05_no_stranded_task`, `C05_no_deadlock`,
+-- `C05_cleanup_progress`) plus the fairness assumption; no temporal-logic theorem is claimed.
 -/
-import TboxModel.C05.CbProofs
+import TboxModel.C05.StrandProofs
 namespace Tbox.C05
 
 /-- reachable states of the repaired code with a configuration initialize() accepts -/
@@ -27,11 +26,38 @@ structure Reach (c : Cfg) (s : State) : Prop where
   lock : LockInv s
   work : WorkerInv s
   cb   : CbInv s
+  acct : AcctInv s
+  join : JoinInv s
+  wake : WakeInv s
+  strand : StrandInv s
+
+theorem JoinInv.init (c : Cfg) (hd : c.fixD = true) : JoinInv (init c) := by
+  constructor
+  · exact hd
+  · intro w hw; left; simpa [Tbox.C05.init] using hw
+  · intro w hw; simp [Tbox.C05.init] at hw
+  · intro w hw; simp [Tbox.C05.init] at hw
+  · intro hd'; simp [Tbox.C05.init] at hd'
+  · intro hd'; simp [Tbox.C05.init] at hd'
+
+theorem Reach.step {c : Cfg} {s : State} (h : Reach c s) (st : Step) (hv : valid s st = true) : Reach c (step s st) :=
+  ⟨h.task.step st hv, h.lock.step st hv, h.work.step st hv, h.cb.step h.task st, h.acct.step h.work st hv,
+   h.join.step h.work h.lock st hv, h.wake.step h.work h.lock st hv, h.strand.step h.work st hv⟩
+
+theorem Reach.exec {c : Cfg} {s : State} (h : Reach c s) (sts : List Step) (s' : State) (he : exec s sts = some s') :
+    Reach c s' := by
+  induction sts generalizing s with
+  | nil => simp [Tbox.C05.exec] at he; exact he ▸ h
+  | cons st sts ih =>
+    simp only [Tbox.C05.exec] at he
+    split at he
+    · rename_i hv; exact ih (h.step st hv) he
+    · cases he
 
 theorem reach {c : Cfg} (hf : c.fixed) (hok : c.ok = true) (sts : List Step) (s : State)
     (he : exec (init c) sts = some s) : Reach c s :=
-  ⟨(TaskInv.init c hf.1).exec sts s he, (LockInv.init c hf.2.1).exec sts s he,
-   (WorkerInv.init c hok).exec sts s he, (CbInv.init c).exec (TaskInv.init c hf.1) sts s he⟩
+  Reach.exec ⟨TaskInv.init c hf.1, LockInv.init c hf.2.1, WorkerInv.init c hok, CbInv.init c, AcctInv.init c,
+    JoinInv.init c hf.2.2.2.1, WakeInv.init c, StrandInv.init c hf.2.2.2.2 hok⟩ sts s he
 
 theorem exec_append (s : State) (a b : List Step) :
     exec s (a ++ b) = (exec s a).bind (fun s1 => exec s1 b) := by
@@ -58,7 +84,9 @@ theorem C05_exactly_once (c : Cfg) (hf : c.fixed) (hok : c.ok = true) (sts : Lis
 thread's `loopRun`. -/
 theorem C05_worker_only (s : State) (st : Step) :
     ((step s st).ran ≠ s.ran → ∃ w, st = .runBody w) ∧ ((step s st).cbs ≠ s.cbs → st = .loopRun) := by
-  cases st <;> simp only [step, afterPred] <;> (repeat' split) <;> simp
+  cases st
+  case notifyOne ow => cases ow <;> simp [step]
+  all_goals (simp only [step, afterPred]; (repeat' split) <;> simp)
 
 /-- **callback once, after the body**: a completion callback runs at most once, and only for a task
 whose body has already returned. -/
@@ -170,7 +198,8 @@ theorem C05_max_workers (c : Cfg) (hf : c.fixed) (hok : c.ok = true) (sts : List
 
 /-- the worker a step belongs to -/
 def workerOf : Step → Option Nat
-  | .enter w | .block w | .wake w | .reenter w | .markDoing w | .runBody w | .postCb w | .finish w | .selfRemove w => some w
+  | .enter w | .block w | .wake w | .reenter w | .markDoing w | .runBody w | .postCb w | .finish w | .selfRemove w
+  | .threadEnd w => some w
   | _ => none
 
 /-- **no deadlock**: once cleanup() has called notify_all, no worker is blocked: the mutex is free,
@@ -193,17 +222,18 @@ theorem C05_no_deadlock (c : Cfg) (hf : c.fixed) (hok : c.ok = true) (sts : List
   | running t => exact ⟨.runBody w, rfl, by simp [valid, hw, hp]⟩
   | postCb t => exact ⟨.postCb w, rfl, by simp [valid, hw, hp]⟩
   | finishing t => exact ⟨.finish w, rfl, by simp [valid, hw, hlock, hp]⟩
-  | exitVol => exact ⟨.selfRemove w, rfl, by simp [valid, hw, hlock, hp]⟩
+  | exitVol own => exact ⟨.selfRemove w, rfl, by simp [valid, hw, hlock, hp]⟩
+  | leaving => exact ⟨.threadEnd w, rfl, by simp [valid, hw, hp]⟩
   | exited => exact absurd hp hne
 
 /-- distance of a worker from the end of its thread function once the stop flag is set -/
 def rank : PC → Nat
-  | .exited => 0 | .exitVol => 1 | .start => 2 | .woken => 2 | .finishing _ => 3 | .waiting => 3
-  | .postCb _ => 4 | .aboutToWait => 4 | .running _ => 5 | .picked _ => 6
+  | .exited => 0 | .leaving => 1 | .exitVol _ => 2 | .start => 3 | .woken => 3 | .finishing _ => 4 | .waiting => 4
+  | .postCb _ => 5 | .aboutToWait => 5 | .running _ => 6 | .picked _ => 7
 
 /-- **bounded progress**: with the stop flag set, every enabled step of worker `w` strictly decreases
-`rank (pc w)` (≤ 6) and leaves every other worker's program counter alone — so each worker takes at most
-six more steps, and by `C05_no_deadlock` it can always take the next one: with fair scheduling and
+`rank (pc w)` (≤ 7) and leaves every other worker's program counter alone — so each worker takes at most
+seven more steps, and by `C05_no_deadlock` it can always take the next one: with fair scheduling and
 terminating bodies every worker reaches `exited` and cleanup()'s joins return. -/
 theorem C05_cleanup_progress (s : State) (st : Step) (w : Nat) (hs : s.stop = true) (hv : valid s st = true)
     (hw : workerOf st = some w) :
@@ -212,7 +242,7 @@ theorem C05_cleanup_progress (s : State) (st : Step) (w : Nat) (hs : s.stop = tr
   all_goals simp only [valid, Bool.and_eq_true, decide_eq_true_eq, beq_iff_eq, Bool.not_eq_true'] at hv
   · -- enter
     simp only [step, afterPred, hs, Bool.true_or, ↓reduceIte]
-    split <;> (refine ⟨?_, fun i hi => by simp [hi]⟩; simp [hv.2, rank])
+    (repeat' split) <;> (refine ⟨?_, fun i hi => by simp [hi]⟩; simp [hv.2, rank])
   · simp only [step]; refine ⟨?_, fun i hi => by simp [hi]⟩; simp [hv.2, rank]
   · simp only [step]; refine ⟨?_, fun i hi => by simp [hi]⟩; simp [hv.2, rank]
   · simp only [step, afterPred, hs, Bool.true_or, ↓reduceIte]
@@ -233,8 +263,12 @@ theorem C05_cleanup_progress (s : State) (st : Step) (w : Nat) (hs : s.stop = tr
     split
     · rename_i t hp; refine ⟨?_, fun i hi => by simp [hi]⟩; simp [hp, rank]
     · rename_i hp; split at hv <;> simp_all
-  · simp only [step]
-    (repeat' split) <;> (refine ⟨?_, fun i hi => by simp [hi]⟩; simp [hv.2, rank])
+  · -- selfRemove
+    cases hp : s.pc _ <;> simp [hp] at hv
+    simp only [step, hp]
+    (repeat' split) <;> (refine ⟨?_, fun i hi => by simp [hi]⟩; simp [rank])
+  · -- threadEnd
+    simp only [step]; refine ⟨?_, fun i hi => by simp [hi]⟩; simp [hv.2, rank]
 
 /-! ### the cleared cabinet -/
 
@@ -265,20 +299,111 @@ theorem NullInv.exec {s : State} (h : NullInv s) (sts : List Step) (s' : State) 
 also when a voluntarily exiting worker races with cleanup(). -/
 theorem C05_no_null_join (c : Cfg) (hf : c.fixed) (sts : List Step) (s : State)
     (he : exec (init c) sts = some s) : s.crashed = false ∧ LoopItem.joinNull ∉ s.loopQ := by
-  have h := NullInv.exec (s := init c) ⟨hf.2.2, rfl, by simp [init]⟩ sts s he
+  have h := NullInv.exec (s := init c) ⟨hf.2.2.1, rfl, by simp [init]⟩ sts s he
   exact ⟨h.ok, h.noQ⟩
+
+/-! ### accounting (positive half of "exactly once") -/
+
+/-- **every accepted task is accounted for**, at every moment: it has run, or was cancelled, or was dropped
+by cleanup, or is still going to run (waiting in the queue, or held by a worker whose body has not started). -/
+theorem C05_accounted (c : Cfg) (hf : c.fixed) (hok : c.ok = true) (sts : List Step) (s : State)
+    (he : exec (init c) sts = some s) :
+    ∀ id, id < s.nextTask → id ∈ s.ranIds ∨ id ∈ s.cancelled ∨ id ∈ s.dropped ∨ pendingTask s id :=
+  (reach hf hok sts s he).acct.cover
+
+/-- **final accounting**: once cleanup() has returned, every accepted task is in EXACTLY one of: executed
+(once, by `C05_exactly_once`), cancelled with answer 0, dropped by cleanup. In particular a task that was
+neither cancelled nor dropped HAS run. -/
+theorem C05_final_accounting (c : Cfg) (hf : c.fixed) (hok : c.ok = true) (sts : List Step) (s : State)
+    (he : exec (init c) sts = some s) (hd : s.done = true) :
+    ∀ id, id < s.nextTask →
+      (id ∈ s.ranIds ∧ id ∉ s.cancelled ∧ id ∉ s.dropped) ∨
+      (id ∉ s.ranIds ∧ id ∈ s.cancelled ∧ id ∉ s.dropped) ∨
+      (id ∉ s.ranIds ∧ id ∉ s.cancelled ∧ id ∈ s.dropped) := by
+  have h := reach hf hok sts s he
+  intro id hid
+  have hundo : s.undo = [] := h.acct.noUndo (h.join.donePhase hd)
+  rcases h.acct.cover id hid with a | a | a | a
+  · exact Or.inl ⟨a, (h.task.ranExcl id a).1, (h.task.ranExcl id a).2.1⟩
+  · exact Or.inr (Or.inl ⟨fun r => (h.task.ranExcl id r).1 a, a, h.task.canDrp id a⟩)
+  · exact Or.inr (Or.inr ⟨fun r => (h.task.ranExcl id r).2.1 a, fun c' => h.task.canDrp id c' a, a⟩)
+  · rcases a with ⟨t, ht, _⟩ | ⟨w, t, hw, _⟩
+    · rw [hundo] at ht; cases ht
+    · have hlt : w < s.nW := by
+        by_cases hlt : w < s.nW
+        · exact hlt
+        · have hact : (s.pc w).active = true := by
+            cases hp : s.pc w <;> simp_all [PC.pre?, PC.active]
+          exact h.work.bound w (h.work.live w hact)
+      have := (h.join.joinedEx w (h.join.doneAll hd w hlt)).1
+      rw [this] at hw; cases hw
+
+/-! ### cleanup joins every worker -/
+
+/-- **cleanup joins every worker**: once cleanup() has returned, every worker thread ever created has been
+joined and its thread function has returned — including workers that left the cabinet by themselves. -/
+theorem C05_cleanup_joins_all (c : Cfg) (hf : c.fixed) (hok : c.ok = true) (sts : List Step) (s : State)
+    (he : exec (init c) sts = some s) (hd : s.done = true) :
+    ∀ w, w < s.nW → w ∈ s.joined ∧ s.pc w = .exited := by
+  have h := (reach hf hok sts s he).join
+  intro w hw
+  exact ⟨h.doneAll hd w hw, (h.joinedEx w (h.doneAll hd w hw)).1⟩
+
+/-! ### no lost wake-up -/
+
+/-- **no lost wake-up for submitted tasks**: whenever a task is waiting (pool not stopping, no notify_one
+pending) and some worker is blocked in the wait, the mutex is free and there is a WOKEN worker whose next
+step is enabled and picks the best waiting task — a waiting task never coexists with "every idle worker
+asleep and nobody on the way". With fair scheduling every accepted task is therefore eventually picked. -/
+theorem C05_no_lost_wakeup (c : Cfg) (hf : c.fixed) (hok : c.ok = true) (sts : List Step) (s : State)
+    (he : exec (init c) sts = some s) (hs : s.stop = false) (hp : s.pend = false) (hu : s.undo ≠ [])
+    (hw : ∃ w, w < s.nW ∧ s.pc w = .waiting) :
+    s.lock = false ∧ ∃ w t, w < s.nW ∧ s.pc w = .woken ∧ valid s (.reenter w) = true ∧
+      popOne s.undo = some t ∧ (step s (.reenter w)).pc w = .running t := by
+  have h := reach hf hok sts s he
+  have hlock : s.lock = false := by
+    cases hl : s.lock
+    · rfl
+    · exact absurd (h.wake.lockUndo hl) hu
+  refine ⟨hlock, ?_⟩
+  have hlen : 0 < s.undo.length := List.length_pos_iff.2 hu
+  obtain ⟨w0, hw0, hpw0⟩ := hw
+  have hk : 0 < nWoken s := by
+    rcases h.wake.K hs with a | a
+    · rw [hp] at a; simp only [pendN_false] at a; omega
+    · have := cntF_zero a w0 hw0; simp [hpw0, PC.isWaiting] at this
+  obtain ⟨w, hwlt, hwk⟩ := cntF_pos hk
+  have hpc : s.pc w = .woken := by
+    cases hpc : s.pc w <;> simp_all [PC.isWoken]
+  obtain ⟨t, ht⟩ := popOne_some hu h.wake.lvlOk
+  refine ⟨w, t, hwlt, hpc, by simp [valid, hwlt, hlock, hpc], ht, ?_⟩
+  have hne : s.undo.isEmpty = false := by
+    cases hh : s.undo with
+    | nil => exact absurd hh hu
+    | cons x xs => rfl
+  simp [step, afterPred, hs, hne, ht, h.task.fixA]
+
+/-- **no stranded task**: before cleanup, whenever a task is waiting there is a worker registered in the
+cabinet, and no registered worker has already decided to leave (the decision and the removal are one critical
+section) — so execute()'s "count < max" test never counts a departing worker, and a waiting task always has
+a worker that will come back to the queue; the idle counter never exceeds the workers actually idle. -/
+theorem C05_no_stranded_task (c : Cfg) (hf : c.fixed) (hok : c.ok = true) (sts : List Step) (s : State)
+    (he : exec (init c) sts = some s) :
+    (s.phase1 = false → s.undo ≠ [] → s.cab ≠ []) ∧ (∀ w, s.pc w = .exitVol false → w ∉ s.cab) ∧ s.idle ≤ nIdle s := by
+  have h := (reach hf hok sts s he).strand
+  exact ⟨h.nonEmpty, h.noLoose, h.idleLe⟩
 
 /-! ### the code as found: counterexample interleavings (defects a, b, c of DESIGN §7-13) -/
 
 /-- (a) one worker: submit; the worker pops the task and unlocks; getTaskStatus answers NOT FOUND;
 the worker re-locks, marks it running and executes it. -/
-def cxStatus : List Step := [.execute 0 false, .enter 0, .status 0, .markDoing 0, .runBody 0]
+def cxStatus : List Step := [.execute 0 false, .notifyOne none, .enter 0, .status 0, .markDoing 0, .runBody 0]
 
 theorem C05_status_consistent_counterexample :
     (exec (init (Cfg.asFound 1 1)) cxStatus).map (fun s => (s.nfEarly, s.ranIds)) = some ([0], [0]) := by decide
 
 /-- (a) the same window: cancel answers 1 ("not found") and the task then runs. -/
-def cxCancel : List Step := [.execute 0 false, .enter 0, .cancel 0, .markDoing 0, .runBody 0]
+def cxCancel : List Step := [.execute 0 false, .notifyOne none, .enter 0, .cancel 0, .markDoing 0, .runBody 0]
 
 theorem C05_cancel_counterexample :
     (exec (init (Cfg.asFound 1 1)) cxCancel).map (fun s => (s.nfEarly, s.ranIds, s.cancelled)) = some ([0], [0], []) := by
@@ -297,24 +422,61 @@ theorem C05_no_deadlock_counterexample :
 /-- (c) min 0, max 1: the only worker finishes its task, decides to exit voluntarily, cleanup() takes
 its thread object out of the cabinet, the worker then gets nullptr from the cabinet. -/
 def cxNull : List Step :=
-  [.execute 0 false, .enter 0, .markDoing 0, .runBody 0, .postCb 0, .finish 0, .enter 0, .cleanup1, .selfRemove 0]
+  [.execute 0 false, .notifyOne none, .enter 0, .markDoing 0, .runBody 0, .postCb 0, .finish 0, .enter 0, .cleanup1, .selfRemove 0]
 
 theorem C05_no_null_join_counterexample :
     (exec (init (Cfg.asFound 0 1)) cxNull).map (fun s => (s.crashed, s.loopQ)) = some (true, [.joinNull]) := by decide
 
+/-- (d) code after the round-1 patches: the only worker (min 0) runs its task, decides to exit, removes itself
+from the cabinet and posts its join to the loop; before its thread function returns, cleanup() runs to
+completion — it finds an empty cabinet and returns while the thread (`leaving`) is still alive. -/
+def cxUnjoined : List Step :=
+  [.execute 0 false, .notifyOne none, .enter 0, .runBody 0, .postCb 0, .finish 0, .enter 0, .selfRemove 0,
+   .cleanup1, .setStop, .notifyAll, .cleanupRet]
+
+theorem C05_cleanup_joins_all_counterexample :
+    (exec (init (Cfg.round1 0 1)) cxUnjoined).map (fun s => (s.done, s.pc 0 == .leaving, s.joined)) =
+      some (true, true, []) := by decide
+
+/-- (e) code after the round-1 patches, min 0 / max 1: the worker has decided to exit but is still counted in the
+cabinet; execute() therefore spawns nobody (count = max) and notifies nobody; the worker leaves: the accepted
+task waits for ever with no worker at all. -/
+def cxStranded : List Step :=
+  [.execute 0 false, .notifyOne none, .enter 0, .runBody 0, .postCb 0, .finish 0, .enter 0,
+   .execute 0 false, .notifyOne none, .selfRemove 0, .threadEnd 0, .loopRun]
+
+theorem C05_no_stranded_task_counterexample :
+    (exec (init (Cfg.round1 0 1)) cxStranded).map
+      (fun s => (s.undo.length, s.stop, s.cab, liveWorkers s, s.nW)) = some (1, false, [], [], 1) := by decide
+
 /-! ### non-vacuity: the repaired model really runs, and rejects the counterexample schedules -/
 
+/-- the repaired model does not allow (d): cleanup() cannot return before it has joined worker 0 -/
+example : (exec (init { min := 0, max := 1 }) cxUnjoined).isSome = false := by decide
+/-- … and passes schedule (e) with a fresh worker spawned for the second task -/
+example : (exec (init { min := 0, max := 1 }) cxStranded).map (fun s => (s.undo.length, s.cab, liveWorkers s, s.nW)) =
+    some (1, [1], [1], 2) := by decide
+/-- hypotheses of `C05_no_lost_wakeup` are reachable: a worker waits, a task arrives, notify_one wakes it;
+a second worker is still waiting -/
+example : (exec (init { min := 2, max := 2 })
+    [.enter 0, .block 0, .enter 1, .block 1, .execute 0 false, .notifyOne (some 1)]).map
+      (fun s => (s.stop, s.pend, s.undo.length, s.pc 0 == .waiting, s.pc 1 == .woken)) = some (false, false, 1, true, true) := by
+  decide
+/-- `notifyOne none` is refused while a worker waits: notify_one must wake somebody -/
+example : (exec (init { min := 1, max := 1 }) [.enter 0, .block 0, .execute 0 false, .notifyOne none]).isSome = false := by
+  decide
+-- the hypothesis `done = true` of `C05_final_accounting` / `C05_cleanup_joins_all` is reached by `demo` below
 /-- the three counterexample schedules are NOT executions of the repaired model -/
 example : (exec (init { min := 1, max := 1 }) cxStatus).isSome = false := by decide
 example : (exec (init { min := 1, max := 1 }) cxDeadlock).isSome = false := by decide
 example : ((exec (init { min := 0, max := 1 })
-    [.execute 0 false, .enter 0, .runBody 0, .postCb 0, .finish 0, .enter 0, .cleanup1, .selfRemove 0]).map
-      (fun s => (s.crashed, s.loopQ))) = some (false, []) := by decide
+    [.execute 0 false, .notifyOne none, .enter 0, .runBody 0, .postCb 0, .finish 0, .enter 0, .cleanup1, .selfRemove 0]).map
+      (fun s => (s.crashed, s.loopQ))) = some (false, [.joinW 0]) := by decide
 
 /-- WorkThread = the instance min = max = 1: submit two tasks with callbacks, cancel the second while
 the first runs, cleanup, join — everything the hypotheses of the theorems above mention occurs. -/
 def demo : List Step :=
-  [.execute 0 true, .execute 0 true, .enter 0, .status 0, .cancel 1, .runBody 0, .postCb 0, .finish 0, .loopRun,
+  [.execute 0 true, .notifyOne none, .execute 0 true, .notifyOne none, .enter 0, .status 0, .cancel 1, .runBody 0, .postCb 0, .finish 0, .loopRun,
    .enter 0, .block 0, .cleanup1, .setStop, .notifyAll, .reenter 0, .join 0, .cleanupRet]
 
 example : (exec (init { min := 1, max := 1 }) demo).map
@@ -323,7 +485,7 @@ example : (exec (init { min := 1, max := 1 }) demo).map
     (fun s => (s.nfEarly.length, s.done, s.pc 0 == .exited, s.picks.length)) = some (0, true, true, 1) := by decide
 example : ({ min := 1, max := 1 } : Cfg).fixed ∧ ({ min := 1, max := 1 } : Cfg).ok = true := by decide
 /-- `C05_no_deadlock`'s hypothesis is reachable: after notifyAll with a worker still busy -/
-example : (exec (init { min := 2, max := 2 }) [.execute 0 false, .enter 0, .cleanup1, .setStop, .notifyAll]).map
+example : (exec (init { min := 2, max := 2 }) [.execute 0 false, .notifyOne none, .enter 0, .cleanup1, .setStop, .notifyAll]).map
     (fun s => (s.notified, s.pc 0 == .running ⟨0, 2, false⟩, s.pc 1 == .start)) = some (true, true, true) := by decide
 
 end Tbox.C05
